@@ -29,9 +29,10 @@ def cell_switches(host, cfg, switches):
     if "fstring-field-string-literal" in switches and hv >= (3, 12) and cfg[0] == "ast.unparse":
         out.add("fstring-field-string-literal")
     if "oneliner-fstring-field-escape" in switches and cfg[0] == "oneliner":
-        # expr_unparse of a 3.12+ host writes the escape into the field (invalid before 3.12);
-        # on older hosts it refuses the same program: both sides of one open finding
-        out.add("field-literal-needs-escape")
+        # expr_unparse of a 3.12+ host writes the escape into the field (invalid before 3.12): that
+        # cell is skipped. On older hosts it REFUSES the same program, which is the harmless side
+        # of the same finding: the refusal is tolerated there, but a returned text is still checked
+        out.add("field-literal-needs-escape" if hv >= (3, 12) else "field-literal-refusal-tolerated")
     if "ast-unparse-host-syntax" in switches and cfg[0] == "ast.unparse":
         out.add("walrus-index-or-set")            # ast.unparse of 3.10+ drops the parentheses
         if hv >= (3, 11):
@@ -166,6 +167,11 @@ def check_program(part, pool_, source, tags, switches, label):
                 # of C01/C05/C06/C07/C13 (same oracle, other interpreter).
                 part["classes"]["rejected-on-host:" + host] += 1
                 part["extra"]["rejections"] = part["extra"].get("rejections", 0) + 1
+                if "field-literal-refusal-tolerated" in sw:
+                    if "field-literal-needs-escape" not in preds:
+                        preds["field-literal-needs-escape"] = has_field_literal_needing_escape(source)
+                    if preds["field-literal-needs-escape"]:
+                        continue
                 refused.setdefault(tuple(cfg), []).append((host, c.get("err")))
                 continue
             accepted.setdefault(tuple(cfg), []).append(host)
@@ -246,7 +252,7 @@ def run(report):
     switches = sorted(open_switches("C15"))
     for s in switches:
         report.exclusions.setdefault(s, 0)
-    progs = sorted(pool.all_programs().items())
+    progs = sorted(pool.all_programs().items()) + sorted(pool.VERSION_SENSITIVE.items())
     nsh = min(env.NPROC, 12)
     items = [("corpus", progs[i::4], switches) for i in range(4)]
     per = 20 if quick else 300
